@@ -104,6 +104,10 @@ func keyShape(c *Ctx, e *ir.Expr, depth int) ([]Seg, error) {
 			k = "ENC:" + e.Name
 		}
 		return []Seg{{Kind: k, Arg: e.Args[0].String(), E: e.Args[0]}}, nil
+	case "makeslice":
+		if len(e.Args) >= 1 && e.Args[0].Op == "const" && e.Args[0].Name == "0" {
+			return nil, nil // an empty buffer
+		}
 	case "param":
 		return []Seg{{Kind: "Raw", Arg: e.String(), E: e}}, nil
 	case "conv":
@@ -128,6 +132,24 @@ func keyShape(c *Ctx, e *ir.Expr, depth int) ([]Seg, error) {
 			if z := e.Args[0].Args; len(z) >= 1 && z[0].Op == "const" && z[0].Name == "0" {
 				return keyShape(c, e.Args[1], depth+1)
 			}
+		case strings.Contains(e.Name, "encoding/binary.") && strings.Contains(e.Name, ").AppendUint") && len(e.Args) == 3:
+			// binary.<Order>.AppendUintN(buf, v) = buf · <order><bits>(v)
+			a, err := keyShape(c, e.Args[1], depth+1)
+			if err != nil {
+				return nil, err
+			}
+			kind := "BE64"
+			switch {
+			case strings.Contains(e.Name, "littleEndian") && strings.HasSuffix(e.Name, "AppendUint64"):
+				kind = "LE64"
+			case strings.Contains(e.Name, "littleEndian") && strings.HasSuffix(e.Name, "AppendUint32"):
+				kind = "LE32"
+			case strings.HasSuffix(e.Name, "AppendUint32"):
+				kind = "BE32"
+			case strings.HasSuffix(e.Name, "AppendUint16"):
+				kind = "ENC:16"
+			}
+			return append(a, Seg{Kind: kind, Arg: e.Args[2].String(), E: e.Args[2]}), nil
 		case strings.HasSuffix(e.Name, "types/address.MustLengthPrefix") && len(e.Args) == 1:
 			return []Seg{{Kind: "LenPrefixed", Arg: e.Args[0].String(), E: e.Args[0]}}, nil
 		case strings.HasSuffix(e.Name, "types.AccAddress).Bytes") && len(e.Args) == 1:
@@ -143,8 +165,17 @@ func keyShape(c *Ctx, e *ir.Expr, depth int) ([]Seg, error) {
 		if len(e.Args) == 2 {
 			for bi := 0; bi < 2; bi++ {
 				base, step := e.Args[bi], e.Args[1-bi]
-				if !(step.Op == "call" && step.Name == "builtin:append" && len(step.Args) == 2 && step.Args[0].Op == "loop") {
+				// the step appends to the loop-carried buffer: append(<loop>, x...) or binary.<Order>.AppendUintN(<loop>, v)
+				binApp := step.Op == "call" && strings.Contains(step.Name, "encoding/binary.") && strings.Contains(step.Name, ").AppendUint") && len(step.Args) == 3 && step.Args[1].Op == "loop"
+				if !(step.Op == "call" && step.Name == "builtin:append" && len(step.Args) == 2 && step.Args[0].Op == "loop") && !binApp {
 					continue
+				}
+				if binApp {
+					// the same step with an empty buffer, as an append of its own encoding
+					empty := &ir.Expr{Op: "makeslice", Args: []*ir.Expr{{Op: "const", Name: "0"}}}
+					enc := *step
+					enc.Args = []*ir.Expr{step.Args[0], empty, step.Args[2]}
+					step = &ir.Expr{Op: "call", Name: "builtin:append", Args: []*ir.Expr{step.Args[1], &enc}}
 				}
 				var list *ir.Expr
 				step.Args[1].Walk(func(x *ir.Expr) bool {
